@@ -61,6 +61,7 @@ PROFILES = {
     'blocking': dict(joint_block=0.6, blocking=1.0, depth=(1, 1), regions=(1, 3), flags=0.5, state_internal=0.0, sm_internal=0.0, completion=0.25, scripts=True),
     'queue': dict(scripts=True, depth=(1, 2), regions=(1, 2), completion=0.2, state_internal=0.2, sm_internal=0.0),
     'defer': dict(deferral=1.0, scripts=True, depth=(1, 1), regions=(1, 3), completion=0.0, state_internal=0.0, sm_internal=0.0),
+    'defer_cond': dict(defer_cond=0.7, deferral=1.0, scripts=True, depth=(1, 1), regions=(1, 3), completion=0.0, state_internal=0.0, sm_internal=0.0),
     'defer_act': dict(defer_action=0.7, deferral=1.0, scripts=True, depth=(1, 1), regions=(1, 3), completion=0.0, state_internal=0.0, sm_internal=0.0),
     'defer_nested': dict(deferral=1.0, nested_deferral=True, scripts=True, depth=(2, 2), regions=(1, 2), completion=0.0, state_internal=0.0,
                          sm_internal=0.0, row_budget=12),
@@ -614,6 +615,16 @@ class Gen:
                         st['deferred'] = keep
                     else:
                         st.pop('deferred')
+        if self.p.get('defer_cond', 0) > 0:
+            # backmp11 only: deferral of a listed type made conditional through is_event_deferred (a guard atom decides)
+            for (mm, is_root) in targets:
+                for s, st in mm['states'].items():
+                    if st['kind'] == 'sub' or not st.get('deferred'):
+                        continue
+                    for e in st['deferred']:
+                        if r.random() < self.p['defer_cond']:
+                            st.setdefault('cond_defer', []).append([e, self.atom()])
+            sp['features']['exclude_cfgs'] = [1, 2, 3, 4]
         if self.p.get('nested_deferral') and not self.p.get('outer_rows_on_deferred'):
             # submachines that contain deferring states: rows of enclosing levels on deferred types would contradict them
             for mm, path in S.machines(sp):
